@@ -954,9 +954,9 @@ func migrateDefinition(r *hx.Rand, k int) ([]defTemplate, error) {
 	}
 	rules = append(rules, map[string]any{"uuid": uuidN(k, 399), "destination": nil, "category": map[string]string{"base": "Other"}, "test": map[string]any{"type": "true", "test": "true"}})
 	flow := map[string]any{"base_language": "base", "flow_type": "F", "version": "11.11",
-		"metadata": map[string]any{"uuid": uuidN(k, 9999), "name": fmt.Sprintf("Dates %d", k), "saved_on": nil},
+		"metadata":    map[string]any{"uuid": uuidN(k, 9999), "name": fmt.Sprintf("Dates %d", k), "saved_on": nil},
 		"action_sets": actionSets,
-		"rule_sets": []map[string]any{{"x": 0, "y": 500, "uuid": rsUUID, "label": "When", "ruleset_type": "wait_message", "rules": rules}}}
+		"rule_sets":   []map[string]any{{"x": 0, "y": 500, "uuid": rsUUID, "label": "When", "ruleset_type": "wait_message", "rules": rules}}}
 	data, _ := json.Marshal(flow)
 	migrated, err := legacy.MigrateDefinition(data, "")
 	if err != nil {
@@ -979,7 +979,8 @@ func migrateDefinition(r *hx.Rand, k int) ([]defTemplate, error) {
 	if err := json.Unmarshal(migrated, &def); err != nil {
 		return nil, err
 	}
-	texts, args := map[string]string{}, map[string]string{}
+	texts := map[string]string{}
+	var args []string // first argument of the cases, in rule order (the catch-all rule makes no case)
 	for _, n := range def.Nodes {
 		for _, a := range n.Actions {
 			texts[a.UUID] = a.Text
@@ -987,7 +988,7 @@ func migrateDefinition(r *hx.Rand, k int) ([]defTemplate, error) {
 		if n.Router != nil {
 			for _, c := range n.Router.Cases {
 				if len(c.Arguments) > 0 {
-					args[c.UUID] = c.Arguments[0]
+					args = append(args, c.Arguments[0])
 				}
 			}
 		}
@@ -999,12 +1000,11 @@ func migrateDefinition(r *hx.Rand, k int) ([]defTemplate, error) {
 		}
 		tpls[i].Migrated = t
 	}
+	if len(args) != nTest {
+		return nil, fmt.Errorf("migrated definition has %d cases with arguments, expected %d", len(args), nTest)
+	}
 	for i := 0; i < nTest; i++ {
-		a, ok := args[uuidN(k, 300+i)]
-		if !ok {
-			return nil, fmt.Errorf("migrated definition has no case %s", uuidN(k, 300+i))
-		}
-		tpls[nMsg+i].Migrated = a
+		tpls[nMsg+i].Migrated = args[i]
 	}
 	return tpls, nil
 }
@@ -1143,8 +1143,28 @@ func main() {
 	}
 
 	// corpus
+	var replayOptions *options
+	if o.Replay != "" {
+		var rj struct {
+			FailingInput struct {
+				Input struct {
+					Options *options `json:"options"`
+				} `json:"input"`
+			} `json:"failing_input"`
+		}
+		if b, err := os.ReadFile(o.Replay); err == nil && json.Unmarshal(b, &rj) == nil {
+			replayOptions = rj.FailingInput.Input.Options
+		}
+	}
 	for _, t := range corpus {
 		tc := tcase{Template: t}
+		if replayOptions != nil {
+			// a failure may depend on an earlier migration under the other RawDates value (O7): replay that order
+			flipped := *replayOptions
+			flipped.RawDates = !flipped.RawDates
+			runCase(tcase{Template: t, Options: flipped}, nil, false, "replay")
+			tc.Options = *replayOptions
+		}
 		out, hasErr := runCase(tc, nil, false, "corpus")
 		if o.Verbose {
 			fmt.Printf("%q -> %q err=%v\n", t, out, hasErr)
